@@ -205,3 +205,8 @@ Definition resolve (parent : option nsm) (m : nsm) (x : namearg)
   | NStr s => bind (resolve_str parent m s false) (fun r => OK (m, r))
   | NId u => bind (resolve_str parent m u true) (fun r => OK (m, r))
   end.
+
+(* ---- wire format ---- *)
+Definition sx_ns (n : ns) : sexp := L [A "ns"; A (ns_prefix n); A (ns_uri n)].
+Definition sx_qn (q : qname) : sexp :=
+  L [A "qn"; A (ns_prefix (qn_ns q)); A (ns_uri (qn_ns q)); A (qn_local q)].
